@@ -85,7 +85,7 @@ DL_RUN = {"harness": "hdeadline", "driver": "dldrv", "corpus": "deadline", "fiel
 STOP_RUN = {"harness": "hstop", "driver": "stopdrv", "corpus": "stopsim", "fields": ["stop", "opens", "closes", "qa", "qb", "online", "ha", "hb", "wa", "wb", "got", "ra", "rb"] + ["c%d" % i for i in range(64)],
             "custom": retry_run, "quick": {"n": 30, "shards": 12}, "thorough": {"n": 120, "shards": 24}}
 
-WSCB_RUN = {"harness": "hwscb", "driver": "wscbdrv", "corpus": "wscb", "fields": ["log", "run", "ret", "sent", "wire", "ql", "rets", "groups", "whole"],
+WSCB_RUN = {"harness": "hwscb", "driver": "wscbdrv", "corpus": "wscb", "fields": ["log", "run", "ret", "sent", "wire", "ql", "rets", "groups", "whole", "exec"],
             "custom": retry_run, "quick": {"n": 40, "shards": 12}, "thorough": {"n": 150, "shards": 24}}
 
 PROPS = {
@@ -95,7 +95,10 @@ PROPS = {
                     "ExecQ itself, bridge c14_queue_is_execq): completed jobs = prefix of open . msg0..msgk . close, complete "
                     "when no drainer is left, strictly serial start/end log (every callback ends before the next starts; "
                     "the open callback has completed before any message callback starts), close exactly once and last, "
-                    "nothing twice, no ws callback at all when the upgrade fails because the conn was closed first; (B) the writer model (direct "
+                    "nothing twice, no ws callback at all when the upgrade fails because the conn was closed first; which executor "
+                    "Upgrade installs per scenario and epoll mode is a decision table (execOf): every poller-driven scenario uses "
+                    "the conn's job queue in every mode, SyncExecutor only on transferred ET+ONESHOT or blocking conns "
+                    "(compared end to end through the exec= field on LT / ET / ET+ONESHOT engines); (B) the writer model (direct "
                     "mode and the asynchronous send queue with its drainer, bound, failures and CloseAndClean): for every "
                     "interleaving the conn's frame stream is a prefix of the concatenation of the whole frame groups of the calls "
                     "that returned nil, each at most once, exactly that concatenation when idle and alive; tied to the code by "
